@@ -122,7 +122,8 @@ def q_used(run, c):
     nsteps = b - a
     wells = sum(n_wells(run.snap[b].get(d)) for d in dests) or 1
     magnitude = sum((abs(amount_in(run, run.snap[a].get(dn), sname)) + abs(amount_in(run, run.snap[b].get(dn), sname)) for dn in dests), F(0))
-    tol_amt = 4 * W.q_amt(sname) * (wells + nsteps + 2) + abs(exp) * F(1, 10 ** 11) + magnitude * F(wells + nsteps + 2, 10 ** 15)
+    tol_amt = 4 * W.q_amt(sname) * (wells + nsteps + 2) + abs(exp) * F(1, 10 ** 11) + magnitude * F(wells + nsteps + 2, 10 ** 15) \
+        + run.noise_amt(sname) * (nsteps + 1)
     key = ('get_substance_used', 'plates' if dest_arg == "plates" else 'subset', tf == 'all', base)
     run.sig.add(('q_used', key[1], key[2], base, out[0], exp > tol_amt, exp < -tol_amt, trash > 0))
     desc = f"get_substance_used({sname}, timeframe={tf!r}, unit={uu!r}, destinations={dests if dest_arg != 'plates' else 'plates'})"
@@ -296,7 +297,8 @@ def q_flows(run, c):
             # not used in the timeframe: the property does not speak; only require that nothing blows up differently
             continue
         fin, fout, _, cells = exp
-        tol_amt = sum((W.q_amt(n) * W.msubs[n].per_amount(base) for n in W.msubs), F(0)) * 8 * (b - a + 2)
+        tol_amt = sum((W.q_amt(n) * W.msubs[n].per_amount(base) for n in W.msubs), F(0)) * 8 * (b - a + 2) \
+            + sum((run.noise_amt(n) * W.msubs[n].per_amount(base) for n in W.msubs), F(0)) * (b - a + 1)
         if out[0] != 'ok':
             run.V('C15', 'flows_raised', key + (out[0],), f"get_container_flows({name}, {kw}) raised {out[0]}: {out[1]}", kid)
         else:
